@@ -5,8 +5,9 @@ from . import cu
 
 MODULES = ['DsdVerif.Props.C08']
 GEN_FILES = []
-THEOREM_NAMES = ['loop_index_spec', 'exterior_spec', 'connected_iff', 'loopStep_length']
-THEOREMS = []
+THEOREM_NAMES = ['loop_index_spec', 'loop_index_modes_agree', 'exterior_spec', 'not_connected_of_error', 'error_of_not_connected',
+                 'makeLoopIndex_linear']
+THEOREMS = ['Dsd.C08.' + t for t in THEOREM_NAMES]
 ASSUMPTIONS = [
     'make_loop_index is hand-modelled on linear positions (Model/Complex.lean: loopStep, makeLoopIndex) and tied to the code by the '
     'correspondence stream `loop` (both `components` modes)',
@@ -14,15 +15,18 @@ ASSUMPTIONS = [
     'the independent quadratic reference and a union-find oracle',
 ]
 MANIFEST = {
-    'text': 'Partial. The Lean model of make_loop_index (same loop on linear positions) is tied to the code by exhaustive correspondence '
-            'over every well-formed structure up to a bounded size in both `components` modes; theorems listed in the evidence file '
-            '(loop numbering = order of opening brackets, partners share the enclosed loop, unpaired positions carry the innermost '
-            'enclosing pair) are proved for structures of any size as far as they are present at this commit; connectivity '
-            '(connected_iff) and the exterior characterisation are decided on the real code against an independent quadratic '
-            'reference and a union-find oracle.',
-    'note': 'Statements not yet closed in Lean are named in the evidence (coverage.open_theorems); for those the assurance is the '
-            'exhaustive correspondence + oracle only.',
-    'technique': 'Lean 4 model + invariant proofs over the scan; correspondence check; independent quadratic/union-find oracle',
+    'text': 'Full for the utility: loop_index_spec (loops are numbered in the order of their opening bracket, both partners get the '
+            'loop they enclose, an unpaired position the number of its innermost enclosing pair, 0 outside), exterior_spec (the '
+            'reported exterior set is exactly the set of loops containing a strand break or the outer ends), and connectivity in both '
+            'directions (not_connected_of_error, error_of_not_connected: the plain mode fails exactly when the strands do not form a '
+            'single component under pairing - quantified over every set of strands closed under pairing), all for structures of any '
+            'size, plus makeLoopIndex_linear connecting the locus-level function to the linear scan. The model is tied to '
+            'make_loop_index by exhaustive correspondence in both `components` modes; the object views is_connected, exterior / '
+            'enclosed domains, get_loop_index and is_domainlevel_complement are decided on the real code against an independent '
+            'quadratic reference and a union-find oracle (they are thin wrappers, modelled in Model/CplxObject.lean).',
+    'note': 'is_domainlevel_complement and the exterior/enclosed partition of the object are checked by oracle + correspondence, '
+            'not by a separate theorem; trusted base as in DESIGN.md section 3.',
+    'technique': 'Lean 4 invariant proof over the loop-index scan (innermost enclosing pair = stack top) + connectivity by descent; correspondence check',
 }
 
 
